@@ -33,6 +33,10 @@ type pop struct {
 	// slice to a second Slice instance (shared).
 	off, spare                  int
 	scribble, callerApp, shared bool
+	// map Range / atomic ForEach: the callback dwells after every entry (yields
+	// and waits, bounded, for other clients to get work done), so that writers
+	// attempt their writes while the walk is inside the callback.
+	slow bool
 }
 
 // prog is one seeded concurrent program: a sequential prefix run by the
@@ -43,7 +47,12 @@ type prog struct {
 	prefix []pop
 	gor    [][]pop
 	post   []pop // observers run by the harness goroutine after all clients are done
-	rounds bool  // lock-step rounds: operation i of every goroutine starts behind a common barrier
+	rounds bool
+	// snapshot programs: goroutine 0 is the only writer (a totally ordered
+	// sequence of versioned writes), the others only observe, mostly with slow
+	// walks; every observation must be a state after some prefix of the
+	// writer's sequence.
+	snapshot bool // lock-step rounds: operation i of every goroutine starts behind a common barrier
 }
 
 const maxKeys = 3
@@ -118,6 +127,9 @@ func opName(kind string, k int) string {
 func (p *prog) String() string {
 	var sb strings.Builder
 	fmt.Fprintf(&sb, "%s keys=%d rounds=%v", p.kind, p.nKeys, p.rounds)
+	if p.snapshot {
+		sb.WriteString(" single-writer(g0)")
+	}
 	w := func(name string, ops []pop) {
 		fmt.Fprintf(&sb, " | %s:", name)
 		for _, o := range ops {
@@ -147,6 +159,9 @@ func (p *prog) String() string {
 				fmt.Fprintf(&sb, "(%s,%s)", keyShow[o.key], fmtVal(o.val))
 			case p.kind == "atomic":
 				fmt.Fprintf(&sb, "(%s)", keyShow[o.key])
+			}
+			if o.slow {
+				sb.WriteString("[slow callback]")
 			}
 			if o.pre > 0 {
 				fmt.Fprintf(&sb, "~%d", o.pre)
@@ -301,6 +316,152 @@ func genProg(kind string, rng *mon.RNG) *prog {
 	return p
 }
 
+// genSnapshotProg builds a single-writer program for the "a walk is one
+// snapshot" check. Prefix: every key gets its first version. Goroutine 0
+// writes 3-5 times in a fixed key order with fresh versions (map: Store, now
+// and then Delete or Clear; atomic: Delete+GetOrCreate pairs, i.e. a new
+// object identity, or Clear). The other goroutines only observe: each opens
+// with a slow walk (Range / ForEach whose callback dwells), the rest are
+// observers of any kind.
+func genSnapshotProg(kind string, rng *mon.RNG) *prog {
+	p := &prog{kind: kind, nKeys: rng.Range(2, maxKeys), rounds: rng.Chance(1, 3), snapshot: true}
+	next := int64(0)
+	uniq := func() int64 { next++; return next }
+	var writer []pop
+	nW := rng.Range(3, 5)
+	switch kind {
+	case "map":
+		for k := 0; k < p.nKeys; k++ {
+			p.prefix = append(p.prefix, pop{kind: mStore, key: k, val: uniq()})
+		}
+		k := rng.Intn(p.nKeys)
+		for i := 0; i < nW; i++ {
+			o := pop{kind: mStore, key: k, val: uniq()}
+			switch rng.Intn(8) {
+			case 0:
+				o = pop{kind: mDelete, key: k}
+			case 1:
+				o = pop{kind: mClear}
+			case 2:
+				o = pop{kind: mLoadAndDelete, key: k}
+			}
+			writer = append(writer, o)
+			k = (k + 1) % p.nKeys
+		}
+		p.post = []pop{{kind: mRange}, {kind: mLen}}
+	default:
+		for k := 0; k < p.nKeys; k++ {
+			p.prefix = append(p.prefix, pop{kind: aGetOrCreate, key: k, val: uniq() << 32})
+		}
+		k := rng.Intn(p.nKeys)
+		for i := 0; i < nW; i++ {
+			switch {
+			case rng.Chance(1, 8):
+				writer = append(writer, pop{kind: aClear})
+			case i%2 == 0:
+				writer = append(writer, pop{kind: aDelete, key: k})
+			default:
+				writer = append(writer, pop{kind: aGetOrCreate, key: k, val: uniq() << 32})
+				k = (k + 1) % p.nKeys
+			}
+		}
+		p.post = []pop{{kind: aForEach}}
+	}
+	p.gor = append(p.gor, writer)
+	for g, nR := 0, rng.Range(1, 3); g < nR; g++ {
+		var ops []pop
+		for i, n := 0, rng.Range(1, 3); i < n; i++ {
+			var o pop
+			if kind == "map" {
+				o = pop{kind: mRange, slow: i == 0 || rng.Chance(1, 2)}
+				if i > 0 && rng.Chance(1, 2) {
+					o = pop{kind: []int{mLoad, mLen, mKeys, mRangeFirst}[rng.Intn(4)], key: rng.Intn(p.nKeys)}
+				}
+			} else {
+				o = pop{kind: aForEach, slow: i == 0 || rng.Chance(1, 2)}
+				if i > 0 && rng.Chance(1, 3) {
+					o = pop{kind: aGet, key: rng.Intn(p.nKeys)}
+				}
+			}
+			ops = append(ops, o)
+		}
+		p.gor = append(p.gor, ops)
+	}
+	return p
+}
+
+// dwell is what a slow callback does after every entry: yield and wait until
+// the history's clock has advanced by a few ticks (other clients called or
+// returned) or the budget is used up. It never waits for a writer to FINISH:
+// on the pinned library writers block behind the walk's read lock, their call
+// stamp is all the clock gets.
+func dwell(clk *atomic.Int64) {
+	if clk == nil {
+		return
+	}
+	start := clk.Load()
+	for i := 0; i < dwellBudget && clk.Load() < start+6; i++ {
+		runtime.Gosched()
+	}
+}
+
+const dwellBudget = 150
+
+// singleWriterOracle: in a snapshot program goroutine 0 (after the prefix) is
+// the only client that changes the structure, so the structure only ever
+// passes through the states S_0 (after the prefix), S_1, ..., S_n (after each
+// of the writer's operations). Every reply to an observer must be correct
+// for at least one of these states. (Real-time order is left to porcupine.)
+func singleWriterOracle(p *prog, s sut, nG int, h []rawOp) (sig, msg string) {
+	m := s.model()
+	st := m.Init()
+	nPre := len(p.prefix)
+	seenPre := 0
+	var states []any
+	var writes []rawOp
+	for _, r := range h {
+		switch {
+		case r.g == nG && seenPre < nPre:
+			seenPre++
+			_, st = m.Step(st, r.in, r.out)
+		case r.g == 0:
+			writes = append(writes, r)
+		}
+	}
+	states = append(states, st)
+	for _, r := range writes { // h is sorted by call stamp = program order within one goroutine
+		_, st = m.Step(st, r.in, r.out)
+		states = append(states, st)
+	}
+	seenPre = 0
+	for _, r := range h {
+		if r.g == 0 {
+			continue
+		}
+		if r.g == nG && seenPre < nPre {
+			seenPre++
+			continue
+		}
+		ok := false
+		for _, cand := range states {
+			if legal, _ := m.Step(cand, r.in, r.out); legal {
+				ok = true
+				break
+			}
+		}
+		if !ok {
+			d := s.describe(r.in, r.out)
+			name := d
+			if i := strings.IndexAny(d, "( "); i > 0 {
+				name = d[:i]
+			}
+			return "snapshot/" + p.kind + "/" + name + "/not-a-state-the-structure-ever-had",
+				fmt.Sprintf("%s [%d,%d]: with g0 as the only writer the %s passes through %d states; the reply matches none of them", d, r.call, r.ret, p.kind, len(states))
+		}
+	}
+	return "", ""
+}
+
 // ---------------------------------------------------------------- running
 
 type rawOp struct {
@@ -315,6 +476,7 @@ type sut interface {
 	exec(g int, op pop) (in, out any) // perform op on the real object for goroutine slot g
 	fork(nG int)                      // the prefix is over: goroutine slots 0..nG-1 inherit the prefix's local state
 	finish(h []rawOp) string          // post-process outputs (identity labelling); non-empty = harness limit hit
+	attach(clk *atomic.Int64)         // the history's clock (slow callbacks watch it)
 	model() porcupine.Model
 	describe(in, out any) string
 }
@@ -333,6 +495,7 @@ type job struct {
 
 func newJob(p *prog, s sut) *job {
 	j := &job{p: p, s: s, nG: len(p.gor)}
+	s.attach(&j.clk)
 	for _, ops := range p.gor {
 		for i := range ops {
 			j.need[i]++
@@ -503,6 +666,7 @@ const linTimeout = 60 * time.Second
 type linStats struct {
 	kind                                   string
 	hist, overlapping, pairs, ops, rounded int
+	snapshot, slowWalks, writesDuringWalk  int
 	opKinds                                map[string]int
 }
 
@@ -512,6 +676,11 @@ func (ls *linStats) flush() {
 	rec.Count(pre+"overlapping_histories", ls.overlapping)
 	rec.Count(pre+"concurrent_pairs", ls.pairs)
 	rec.Count(pre+"ops", ls.ops)
+	if ls.kind != "slice" {
+		rec.Count(pre+"snapshot.single_writer_histories", ls.snapshot)
+		rec.Count(pre+"snapshot.slow_walks", ls.slowWalks)
+		rec.Count(pre+"snapshot.writes_attempted_during_a_slow_walk", ls.writesDuringWalk)
+	}
 	for k, v := range ls.opKinds {
 		rec.Count(pre+"op."+k, v)
 	}
@@ -533,7 +702,12 @@ func runLinGroup(idx int, g group) {
 	batch := make([]*job, g.n)
 	for sub := range batch {
 		rng := mon.NewRNG("c14-lin-"+g.kind, idx*4096+sub)
-		batch[sub] = newJob(genProg(g.kind, rng), newSUT(g.kind))
+		p := genProg(g.kind, rng)
+		if g.kind != "slice" && sub%5 == 4 {
+			// every fifth history is a single-writer program with slow walks
+			p = genSnapshotProg(g.kind, mon.NewRNG("c14-snapshot-"+g.kind, idx*4096+sub))
+		}
+		batch[sub] = newJob(p, newSUT(g.kind))
 	}
 	getPool().run(batch)
 	rec.Progress()
@@ -561,6 +735,24 @@ func runLinGroup(idx int, g group) {
 			continue
 		}
 		ov := overlaps(h)
+		if p.snapshot {
+			if sig, msg := singleWriterOracle(p, s, j.nG, h); sig != "" {
+				rec.Violation(idx, sig, msg, replay())
+				continue
+			}
+			ls.snapshot++
+			// how often a write was attempted (call stamp) while a slow walk was in progress
+			for _, r := range h {
+				if slowWalk(r) {
+					ls.slowWalks++
+					for _, w := range h {
+						if w.g == 0 && w.call > r.call && w.call < r.ret {
+							ls.writesDuringWalk++
+						}
+					}
+				}
+			}
+		}
 		res := porcupine.CheckOperationsTimeout(s.model(), toPorcupine(h), linTimeout)
 		switch res {
 		case porcupine.Unknown:
@@ -621,6 +813,17 @@ func runLinGroup(idx int, g group) {
 	}
 }
 
+// slowWalk reports whether r is a Range / ForEach with a dwelling callback.
+func slowWalk(r rawOp) bool {
+	switch in := r.in.(type) {
+	case mapIn:
+		return in.slow
+	case atomIn:
+		return in.slow
+	}
+	return false
+}
+
 // malformed returns the first reply of h that no state of the model could
 // produce (foreign or duplicate key, a value that was never written).
 func malformed(h []rawOp) string {
@@ -648,6 +851,7 @@ func malformed(h []rawOp) string {
 type mapIn struct {
 	op, key int
 	val     int64
+	slow    bool
 }
 
 type mapOut struct {
@@ -673,14 +877,19 @@ func popcount(m uint8) int {
 	return n
 }
 
-type mapSUT struct{ m cmap.Map[string, int64] }
+type mapSUT struct {
+	m   cmap.Map[string, int64]
+	clk *atomic.Int64
+}
 
 func (s *mapSUT) fork(int) {}
+
+func (s *mapSUT) attach(clk *atomic.Int64) { s.clk = clk }
 
 func (s *mapSUT) finish([]rawOp) string { return "" }
 
 func (s *mapSUT) exec(_ int, op pop) (any, any) {
-	in := mapIn{op: op.kind, key: op.key, val: op.val}
+	in := mapIn{op: op.kind, key: op.key, val: op.val, slow: op.slow}
 	var o mapOut
 	k := keyNames[op.key]
 	switch op.kind {
@@ -717,6 +926,9 @@ func (s *mapSUT) exec(_ int, op pop) (any, any) {
 			default:
 				o.mask |= 1 << uint(i)
 				o.snap[i] = v
+			}
+			if op.slow {
+				dwell(s.clk)
 			}
 			return true
 		})
@@ -810,6 +1022,9 @@ func (s *mapSUT) describe(input, output any) string {
 				parts = append(parts, fmt.Sprintf("%s=%d", keyShow[i], out.snap[i]))
 			}
 		}
+		if in.slow {
+			return fmt.Sprintf("Range(slow callback) = {%s}%s", strings.Join(parts, " "), bad)
+		}
 		return fmt.Sprintf("Range() = {%s}%s", strings.Join(parts, " "), bad)
 	case mRangeFirst:
 		if out.n == 0 {
@@ -845,6 +1060,7 @@ type atomIn struct {
 	val     int64
 	ptr     *av // object the obj.* operation was applied to
 	obj     int // its identity label (filled by finish)
+	slow    bool
 }
 
 type atomOut struct {
@@ -867,7 +1083,10 @@ type atomState struct {
 type atomSUT struct {
 	a     cmap.Atomic[string, int64]
 	local [5][maxKeys]*av // per goroutine slot: the object last obtained for each key
+	clk   *atomic.Int64
 }
+
+func (s *atomSUT) attach(clk *atomic.Int64) { s.clk = clk }
 
 func (s *atomSUT) fork(nG int) {
 	for g := 0; g < nG; g++ {
@@ -876,7 +1095,7 @@ func (s *atomSUT) fork(nG int) {
 }
 
 func (s *atomSUT) exec(g int, op pop) (any, any) {
-	in := atomIn{op: op.kind, key: op.key, val: op.val, obj: -1}
+	in := atomIn{op: op.kind, key: op.key, val: op.val, obj: -1, slow: op.slow}
 	o := atomOut{obj: -1}
 	k := keyNames[op.key]
 	switch op.kind {
@@ -912,6 +1131,9 @@ func (s *atomSUT) exec(g int, op pop) (any, any) {
 			default:
 				o.mask |= 1 << uint(i)
 				o.ptrs[i] = v
+			}
+			if op.slow {
+				dwell(s.clk)
 			}
 		})
 	case aClear:
@@ -1047,6 +1269,9 @@ func (s *atomSUT) describe(input, output any) string {
 		if out.bad != "" {
 			bad = " MALFORMED: " + out.bad
 		}
+		if in.slow {
+			return fmt.Sprintf("ForEach(slow callback) = {%s}%s", strings.Join(parts, " "), bad)
+		}
 		return fmt.Sprintf("ForEach() = {%s}%s", strings.Join(parts, " "), bad)
 	}
 	return "Clear()"
@@ -1076,6 +1301,8 @@ type sliceSUT struct {
 const sliceBufLen = 3 + 3 + 8 + 1 // max offset + max items + max spare + one guard element
 
 func (s *sliceSUT) fork(int) {}
+
+func (s *sliceSUT) attach(*atomic.Int64) {}
 
 func (s *sliceSUT) finish([]rawOp) string { return "" }
 
@@ -1187,27 +1414,27 @@ func selfTestModels() string {
 	ms := (&mapSUT{}).model()
 	// Store(a,1) overlapping LoadAndDelete(a)->1,true; a later Load(a) must miss
 	legal := []porcupine.Operation{
-		op(0, mapIn{mStore, 0, 1}, mapOut{}, 1, 4),
-		op(1, mapIn{mLoadAndDelete, 0, 0}, mapOut{val: 1, ok: true}, 2, 3),
-		op(0, mapIn{mLoad, 0, 0}, mapOut{}, 5, 6),
-		op(1, mapIn{mLen, 0, 0}, mapOut{n: 0}, 7, 8),
+		op(0, mapIn{op: mStore, key: 0, val: 1}, mapOut{}, 1, 4),
+		op(1, mapIn{op: mLoadAndDelete, key: 0, val: 0}, mapOut{val: 1, ok: true}, 2, 3),
+		op(0, mapIn{op: mLoad, key: 0, val: 0}, mapOut{}, 5, 6),
+		op(1, mapIn{op: mLen, key: 0, val: 0}, mapOut{n: 0}, 7, 8),
 	}
 	if chk(ms, legal) != porcupine.Ok {
 		return "map model rejects a legal history"
 	}
 	// two LoadAndDelete both obtain the stored value
 	illegal := []porcupine.Operation{
-		op(0, mapIn{mStore, 0, 1}, mapOut{}, 1, 2),
-		op(0, mapIn{mLoadAndDelete, 0, 0}, mapOut{val: 1, ok: true}, 3, 6),
-		op(1, mapIn{mLoadAndDelete, 0, 0}, mapOut{val: 1, ok: true}, 4, 5),
+		op(0, mapIn{op: mStore, key: 0, val: 1}, mapOut{}, 1, 2),
+		op(0, mapIn{op: mLoadAndDelete, key: 0, val: 0}, mapOut{val: 1, ok: true}, 3, 6),
+		op(1, mapIn{op: mLoadAndDelete, key: 0, val: 0}, mapOut{val: 1, ok: true}, 4, 5),
 	}
 	if chk(ms, illegal) != porcupine.Illegal {
 		return "map model accepts a double LoadAndDelete"
 	}
 	// stale read after a completed Store
 	illegal = []porcupine.Operation{
-		op(0, mapIn{mStore, 0, 1}, mapOut{}, 1, 2),
-		op(1, mapIn{mRange, 0, 0}, mapOut{}, 3, 4),
+		op(0, mapIn{op: mStore, key: 0, val: 1}, mapOut{}, 1, 2),
+		op(1, mapIn{op: mRange, key: 0, val: 0}, mapOut{}, 3, 4),
 	}
 	if chk(ms, illegal) != porcupine.Illegal {
 		return "map model accepts a stale Range"
